@@ -34,6 +34,18 @@ func smOpWeights(mode string) smWeights {
 		w["prop"] = 6
 		w["ans"] = 14
 		w["time"] = 1
+	case "C10":
+		w["restart"] = 3
+		w["prop"] = 5
+		w["nround"] = 9
+		w["adv"] = 12
+		w["nq"] = 10
+	case "C07":
+		w["restart"] = 3
+		w["prop"] = 8
+		w["nph"] = 12
+		w["nround"] = 10
+		w["adv"] = 14
 	case "C12":
 		w["fire"] = 10
 		w["firec"] = 5
@@ -104,11 +116,23 @@ func smGenCase(rt *rapid.T, mode string) smCase {
 	c.Cfg = smCfg{
 		N:       1 + smUni(rt, smMaxVals),
 		Pow:     smUni(rt, 6),
-		ValMode: smUni(rt, 4),
+		ValMode: smUni(rt, 5),
 		InitH:   1 + smUni(rt, 3),
 	}
 	if smUni(rt, 10) == 0 {
 		c.Cfg.Follower = true
+	}
+	switch mode {
+	case "C10":
+		c.Crash = 1 + smUni(rt, 64)
+	case "C07":
+		// validators change at every height; mode 4 (keys and powers) most of the time
+		c.Cfg.ValMode = []int{4, 4, 4, 1, 2, 3}[smUni(rt, 6)]
+		if c.Cfg.N < 3 {
+			c.Cfg.N += 2
+		}
+		c.Cfg.Follower = false
+		c.Crash = smUni(rt, 48) // 0 = no crash point
 	}
 	// rapid's slices average about twice their minimum length: the minimum is
 	// itself drawn (8..48, shrinks to 8) so that long histories are common.
@@ -179,6 +203,99 @@ func smRunCase(t vk.TB, st *vk.Stats, c smCase, mode string) {
 	}
 }
 
+// smRunCrashCase (C10 / C07 state-machine units): the history is run once
+// without a stop (reference) and then with the process dying after an eligible
+// store write; quick: the drawn write, thorough (C10): every write of the history.
+func smRunCrashCase(t vk.TB, st *vk.Stats, c smCase, mode string) {
+	if st.WantSample() {
+		st.Sample(c)
+	}
+	ref := c
+	ref.Crash = 0
+	st.WAL(ref)
+	rres := runSim(smOuterT, st, ref, mode)
+	labels := append([]string(nil), rres.labels...)
+	if rres.fail != nil {
+		st.Case(false, vk.FP(c), labels...)
+		st.Fail(t, ref, rres.fail.finding, rres.fail.clause, "[%s] (run without stop) %s\n--- last events ---\n%s", rres.fail.prop, rres.fail.detail, rres.tail)
+		return
+	}
+	var points []int
+	switch {
+	case rres.writes == 0 || (mode == "C07" && c.Crash == 0):
+	case mode == "C10" && vk.Thorough() && !vk.Replaying():
+		for k := 1; k <= rres.writes; k++ {
+			points = append(points, k)
+		}
+	default:
+		points = []int{1 + (c.Crash-1+rres.writes)%rres.writes}
+	}
+	nontrivial := false
+	seen := map[string]bool{}
+	for _, l := range labels {
+		seen[l] = true
+	}
+	var fail *smFailure
+	var failCase smCase
+	var failTail string
+	for _, k := range points {
+		cc := c
+		cc.Crash = k
+		st.WAL(cc)
+		res := runSim(smOuterT, st, cc, mode)
+		st.Label("crash-runs")
+		for _, l := range res.labels {
+			if !seen[l] {
+				seen[l] = true
+				labels = append(labels, l)
+			}
+		}
+		if !res.crashed {
+			st.Label("crash-point-not-reached")
+		}
+		if res.crashed && (rres.midWrites[k] || rres.writeRound[k] >= 1) {
+			nontrivial = true
+			if rres.midWrites[k] {
+				st.Label("crash-between-writes-of-one-transition")
+			}
+		}
+		f := res.fail
+		if f == nil && mode == "C10" && res.crashed {
+			// after redelivery the machine reaches the position of the run without the stop
+			switch {
+			case !rres.synced:
+				st.Label("join-skipped:reference-not-in-sync")
+			case res.mmDigest != rres.mmDigest:
+				st.Label("join-skipped:mirror-histories-differ")
+			case !res.synced && res.deadEnd != "":
+				st.Label("join-skipped:" + res.deadEnd)
+			case !res.synced || res.posH != rres.posH || res.posR != rres.posR:
+				f = &smFailure{prop: "C10", clause: "not-rejoined", detail: fmt.Sprintf(
+					"after the stop (%s) and redelivery the machine ends at %d/%d (in sync with the mirror: %v); without the stop it ends at %d/%d; entrances with stop: %s; without: %s",
+					res.crashInfo, res.posH, res.posR, res.synced, rres.posH, rres.posR, res.entrSeq, rres.entrSeq)}
+				res.tail = ""
+			default:
+				st.Label("joined")
+			}
+		}
+		if f != nil && fail == nil {
+			fail, failCase, failTail = f, cc, res.tail
+			break
+		}
+	}
+	if mode == "C07" {
+		nontrivial = seen["own-proposal"] && (seen["heights>=3"] || rres.heights >= 3)
+	}
+	if rres.heights >= 3 {
+		labels = append(labels, "heights>=3")
+	}
+	st.LabelN("ops-run", int64(rres.opsRun))
+	st.Case(nontrivial, vk.FP(c), labels...)
+	if fail != nil {
+		st.Fail(t, failCase, fail.finding, fail.clause, "[%s] %s\n--- last events ---\n%s", fail.prop, fail.detail, failTail)
+	}
+}
+
 func smTest(t *testing.T, prop, name, mode, rule string) {
 	smOuterT = t
 	smUniverse() // keys are generated outside any bubble
@@ -189,14 +306,22 @@ func smTest(t *testing.T, prop, name, mode, rule string) {
 		t.Fatal(err)
 	} else if ok {
 		smTrace = true
-		smRunCase(t, st, c, mode)
+		if mode == "C10" || mode == "C07" {
+			smRunCrashCase(t, st, c, mode)
+		} else {
+			smRunCase(t, st, c, mode)
+		}
 		return
 	} else if vk.Replaying() {
 		t.Skip("replay file is for another test")
 	}
 	rapid.Check(t, func(rt *rapid.T) {
 		c := smGenCase(rt, mode)
-		smRunCase(rt, st, c, mode)
+		if mode == "C10" || mode == "C07" {
+			smRunCrashCase(rt, st, c, mode)
+		} else {
+			smRunCase(rt, st, c, mode)
+		}
 	})
 }
 
@@ -215,6 +340,16 @@ func TestVerifC02NoDoubleSign(t *testing.T) {
 func TestVerifC12TimerDiscipline(t *testing.T) {
 	smTest(t, "C12", "TestVerifC12TimerDiscipline", "C12", smRuleCommon+
 		"non-trivial = at least two timer kinds were started and at least one timer fired and one was cancelled")
+}
+
+func TestVerifC10SMRestart(t *testing.T) {
+	smTest(t, "C10", "TestVerifC10SMRestart", "C10", smRuleCommon+
+		"ops as for C02 (incl. quiescent restarts); each history is run without a stop and then with the process dying inside an eligible store write of the machine (SaveProposedHeaderAction, SaveFinalization, SetStateMachineHeightRound; quick: one drawn write, thorough: every write of the history), followed by a new machine on the same stores and the rest of the ops; non-trivial = the stop lies between two store writes of one transition or in a round >= 1")
+}
+
+func TestVerifC07SMValidatorSets(t *testing.T) {
+	smTest(t, "C07", "TestVerifC07SMValidatorSets", "C07", smRuleCommon+
+		"the application changes validator keys and powers at every height; restarts and one drawn crash point as in the C10 unit; non-trivial = the machine built a proposal of its own and the history spans at least three heights")
 }
 
 var _ = fmt.Sprintf
